@@ -30,6 +30,7 @@ type Path struct {
 	Sinks   map[string]*Obj // writer access path -> bytes written
 	Notes   []string
 	Bounds  []BoundOb
+	Keep    map[string]Value // harness scratch: arguments kept for result inspection
 	Abort   string // non-empty: the path could not be interpreted ("unsupported ...")
 	Panics  string // non-empty: the path ends in a panic
 	steps   int
